@@ -827,6 +827,52 @@ pub mod wz {
     );
 }
 
+// WF: zero-sized columns in FIRST position (with and without Drop) next to data columns, and a
+// one-byte archetype; ids 5, 6 and (by the discriminant rule) 7.
+pub mod wf {
+    use super::*;
+    use gecs::prelude::*;
+
+    ecs_world! {
+        ecs_name!(WF);
+        #[archetype_id(5)]
+        ecs_archetype!(ArchZF, CompZ, CompB);
+        ecs_archetype!(ArchYF, CompY, CompA, CompZ);
+        ecs_archetype!(ArchU, CompU);
+    }
+
+    arch_spec!(WF, ArchZF, [(CompZ, comp_z), (CompB, comp_b)]);
+    arch_spec!(WF, ArchYF, [(CompY, comp_y), (CompA, comp_a), (CompZ, comp_z)]);
+    arch_spec!(WF, ArchU, [(CompU, comp_u)]);
+
+    site!(S0, WF, w,
+        params = [e: &EntityAny, d: &EntityDirectAny, z: &mut CompZ],
+        ent = abits(*e), dir = Some(*d), cols = [ColRef::W(z)],
+        other = Some(&mut w.arch_u as &mut dyn ArchDyn));
+    site!(S1, WF, w,
+        params = [e: &Entity<_>, b: &mut CompB],
+        ent = abits((*e).into_any()), dir = None, cols = [ColRef::W(b)],
+        other = None);
+    site!(S2, WF, w,
+        params = [e: &EntityAny, d: &EntityDirectAny],
+        ent = abits(*e), dir = Some(*d), cols = [],
+        other = None);
+    site!(S3, WF, w,
+        params = [y: &CompY, d: &EntityDirect<_>, e: &EntityAny, a: &mut CompA],
+        ent = abits(*e), dir = Some((*d).into_any()), cols = [ColRef::R(y), ColRef::W(a)],
+        other = Some(&mut w.arch_zf as &mut dyn ArchDyn));
+
+    world_spec!(WF, "WF",
+        archs = [(0, ArchZF, arch_zf), (1, ArchYF, arch_yf), (2, ArchU, arch_u)],
+        sites = [
+            (0, S0, SiteInfo { name: "S0 |&EntityAny, &EntityDirectAny, &mut CompZ|", matches: &[0, 1], cols: &[&[0], &[2]], muts: &[true], has_dir: true, other: Some(2) }),
+            (1, S1, SiteInfo { name: "S1 |&Entity<_>, &mut CompB|", matches: &[0], cols: &[&[1]], muts: &[true], has_dir: false, other: None }),
+            (2, S2, SiteInfo { name: "S2 |&EntityAny, &EntityDirectAny|", matches: &[0, 1, 2], cols: &[&[], &[], &[]], muts: &[], has_dir: true, other: None }),
+            (3, S3, SiteInfo { name: "S3 |&CompY, &EntityDirect<_>, &EntityAny, &mut CompA|", matches: &[1], cols: &[&[0, 1]], muts: &[false, true], has_dir: true, other: Some(0) }),
+        ]
+    );
+}
+
 // W32: 17 and 32 columns (only with the 32_components feature).
 #[cfg(feature = "32_components")]
 pub mod w32 {
